@@ -100,6 +100,10 @@ void profile_blockedit(const json& plan, Ctx& ctx) {
 		uint64_t sel = ju64(st, "block", 0);
 		if (op == "AddBlock" || op == "ReplaceBlock") {
 			std::string type = types[ju64(st, "type", 0) % types.size()];
+			if (op == "ReplaceBlock" && jbool(st, "same_type", false) && nb >= 2) {
+				std::string cur = typeNameOf(hdr, 1 + uint32_t(sel % (nb - 1)));
+				if (std::find(types.begin(), types.end(), cur) != types.end()) { type = cur; ctx.probe("op_replace_same_type"); }
+			}
 			std::vector<std::pair<NiRef*, std::string>> refs;
 			setStage((op + ":synth").c_str());
 			auto obj = synthBlock(hdr, type, ju64(st, "seed", 1), &refs);
